@@ -29,7 +29,10 @@ var hostileWords = []string{"\u212a", "\u0130", "\u212a\u212a\u212a\u212a;", "\u
 func mutateText(t *rapid.T, text string, m int64) string {
 	lines := strings.Split(text, "\n")
 	pickLine := func() int { return rapid.IntRange(0, len(lines)-1).Draw(t, "line") }
-	mk := rapid.IntRange(0, 15).Draw(t, "mut")
+	mk := rapid.IntRange(0, 16).Draw(t, "mut")
+	if mk == 16 {
+		mk = 17 // (16, the megabyte padding, is only chosen by the fair rare draw below)
+	}
 	if gen.Rare(t, "hugefile", 11) {
 		mk = 16
 	}
@@ -124,6 +127,19 @@ func mutateText(t *rapid.T, text string, m int64) string {
 			lines[i] = lines[i] + strings.Repeat(" ", n)
 		default:
 			lines[i] = strings.Repeat(" ", n) + lines[i]
+		}
+	case 17: // another addressing mode in place of one of the two mode fields
+		i := pickLine()
+		f := strings.Fields(lines[i])
+		var at []int
+		for k, x := range f {
+			if len(x) == 1 && strings.Contains("#$@<>*{}", x) {
+				at = append(at, k)
+			}
+		}
+		if len(at) > 0 {
+			f[at[rapid.IntRange(0, len(at)-1).Draw(t, "modeat")]] = rapid.SampledFrom(ref.ModeChars[:]).Draw(t, "newmode")
+			lines[i] = strings.Join(f, " ")
 		}
 	case 16: // more than a megabyte of comment lines in the middle of the file
 		i := rapid.IntRange(0, len(lines)).Draw(t, "at")
